@@ -211,3 +211,124 @@ Proof.
   { rewrite <- (pos_ratio_inv s Hn He). field. lra. }
   apply clipQ_compat; [lra|exact E2].
 Qed.
+
+(* the threshold returned by _threshold_at_ratio is monotone in the target: non-decreasing for an
+   increasing metric, non-increasing once the direction is flipped *)
+Theorem tar_monotone (succ pred : Q -> Q) s l u u' inc rc m :
+  (forall x, x < succ x) -> (forall x, pred x < x) -> sorted l -> (1 <= len l)%Z -> u <= u' ->
+  if flipped s inc then threshold_at_ratio succ pred s l u' inc rc m <= threshold_at_ratio succ pred s l u inc rc m
+  else threshold_at_ratio succ pred s l u inc rc m <= threshold_at_ratio succ pred s l u' inc rc m.
+Proof.
+  intros Hsucc Hpred Hs H Hu. unfold threshold_at_ratio, flipped.
+  destruct inc, (score_class s); cbn [negb label_eqb xorb]; cbv iota beta;
+    apply (inv_monotone succ pred Hsucc Hpred); try assumption; lra.
+Qed.
+
+(* ---------- explicit form of the rescaled targets for the metrics that subtract an easy share ---------- *)
+Lemma clip01_min1 y : clip01 (Qmin2 y 1) == clip01 y.
+Proof.
+  unfold Qmin2. destruct (Qleb y 1) eqn:A; [reflexivity|]. qb.
+  destruct (clip01_spec 1) as (_ & A1 & _), (clip01_spec y) as (_ & B1 & _). rewrite A1, B1; lra.
+Qed.
+
+Lemma hard_target_sub_spec r er h : 0 < h -> h <= 1 -> er == 1 - h ->
+  clip01 (Qmaximum (Qminimum (Qmaximum (r - er) 0 / h) 1) (b2q (Qleb 1 r))) == clip01 ((r - er) / h).
+Proof.
+  intros Hh Hh1 Her. unfold Qmaximum, Qminimum.
+  destruct (Qleb 1 r) eqn:R; unfold b2q; qb.
+  - (* r >= 1: both sides clip to 1 *)
+    assert (Y : 1 <= (r - er) / h) by (apply Qle_shift_div_l; lra).
+    assert (X : 1 <= Qmax2 (Qmin2 (Qmax2 (r - er) 0 / h) 1) 1) by apply Qmax2_ge_r.
+    destruct (clip01_spec ((r - er) / h)) as (_ & A1 & _), (clip01_spec (Qmax2 (Qmin2 (Qmax2 (r - er) 0 / h) 1) 1)) as (_ & B1 & _).
+    rewrite A1, B1; lra.
+  - destruct (Qlt_le_dec 0 (r - er)) as [P|P].
+    + assert (E1 : Qmax2 (r - er) 0 == r - er) by (unfold Qmax2; destruct (Qleb (r - er) 0) eqn:K; qb; lra).
+      assert (Ypos : 0 < (r - er) / h) by (apply Qlt_shift_div_l; lra).
+      assert (E2 : Qmax2 (r - er) 0 / h == (r - er) / h) by (rewrite E1; reflexivity).
+      set (y := (r - er) / h) in *.
+      assert (E3 : Qmin2 (Qmax2 (r - er) 0 / h) 1 == Qmin2 y 1).
+      { unfold Qmin2. destruct (Qleb (Qmax2 (r - er) 0 / h) 1) eqn:K1, (Qleb y 1) eqn:K2; qb; lra. }
+      assert (E4 : 0 < Qmin2 y 1) by (unfold Qmin2; destruct (Qleb y 1); lra).
+      assert (E5 : Qmax2 (Qmin2 (Qmax2 (r - er) 0 / h) 1) 0 == Qmin2 y 1).
+      { unfold Qmax2 at 1. destruct (Qleb (Qmin2 (Qmax2 (r - er) 0 / h) 1) 0) eqn:K; qb; lra. }
+      rewrite (clip01_compat _ _ E5). apply clip01_min1.
+    + assert (E1 : Qmax2 (r - er) 0 == 0) by (unfold Qmax2; destruct (Qleb (r - er) 0) eqn:K; qb; lra).
+      assert (E2 : Qmax2 (r - er) 0 / h == 0) by (rewrite E1; unfold Qdiv; ring).
+      assert (E3 : Qmin2 (Qmax2 (r - er) 0 / h) 1 == 0) by (unfold Qmin2; destruct (Qleb (Qmax2 (r - er) 0 / h) 1) eqn:K; qb; lra).
+      assert (E4 : Qmax2 (Qmin2 (Qmax2 (r - er) 0 / h) 1) 0 == 0) by (unfold Qmax2 at 1; destruct (Qleb (Qmin2 (Qmax2 (r - er) 0 / h) 1) 0) eqn:K; qb; lra).
+      assert (Y : (r - er) / h <= 0) by (apply Qle_shift_div_r; lra).
+      destruct (clip01_spec ((r - er) / h)) as (A0 & _), (clip01_spec 0) as (B0 & _).
+      rewrite (clip01_compat _ _ E4), A0, B0; lra.
+Qed.
+
+Lemma neg_ratio_inv' s : (1 <= len (neg s))%Z -> (0 <= easy_neg s)%Z ->
+  inject_Z (len (neg s)) / hard_neg_ratio s == inject_Z (len (neg s) + easy_neg s).
+Proof.
+  intros Hn He. unfold hard_neg_ratio. destruct (0 <? easy_neg s)%Z eqn:E.
+  - apply Z.ltb_lt in E. rewrite inject_Z_plus.
+    assert (1 <= inject_Z (len (neg s))) by (change 1 with (inject_Z 1); rewrite <- Zle_Qle; lia).
+    assert (0 < inject_Z (easy_neg s)) by (change 0 with (inject_Z 0); rewrite <- Zlt_Qlt; lia).
+    field. split; lra.
+  - apply Z.ltb_ge in E. assert (easy_neg s = 0)%Z by lia. rewrite H, Z.add_0_r. field.
+Qed.
+
+(* TPR: the true-positive count is within one sample of r * (N + e) clipped to the achievable range [e, N + e] *)
+Theorem roundtrip_tpr_rate (succ pred : Q -> Q) s r T :
+  (forall x, x < succ x) -> (forall x, pred x < x) ->
+  ssorted (pos s) -> (0 <= easy_pos s)%Z -> threshold_at_tpr succ pred s r Linear = Ret T ->
+  within1 (ctp (cm s (Fin T)) - easy_pos s)
+          (clipQ 0 (inject_Z (len (pos s))) (r * inject_Z (len (pos s) + easy_pos s) - inject_Z (easy_pos s))).
+Proof.
+  intros Hsucc Hpred Hss He HT. pose proof (roundtrip_tpr succ pred Hsucc Hpred s r T Hss HT) as R.
+  assert (Hn : (1 <= len (pos s))%Z).
+  { unfold threshold_at_tpr in HT. destruct (len (pos s) =? 0)%Z eqn:E; [discriminate|]. apply Z.eqb_neq in E.
+    pose proof (len_nonneg (pos s)). lia. }
+  destruct (hard_pos_ratio_range s Hn He) as [Hh0 Hh1].
+  assert (HN : 0 < inject_Z (len (pos s))) by (change 0 with (inject_Z 0); rewrite <- Zlt_Qlt; lia).
+  eapply within1_compat; [|exact R]. unfold hard_target_tpr.
+  rewrite (hard_target_sub_spec r (easy_pos_ratio s) (hard_pos_ratio s) Hh0 Hh1) by (unfold easy_pos_ratio; reflexivity).
+  rewrite clip01_scale by exact HN. apply clipQ_compat; [lra|].
+  pose proof (pos_ratio_inv s Hn He) as Hinv. unfold easy_pos_ratio.
+  assert (E : (r - (1 - hard_pos_ratio s)) / hard_pos_ratio s * inject_Z (len (pos s))
+              == (r - 1) * (inject_Z (len (pos s)) / hard_pos_ratio s) + inject_Z (len (pos s))) by (field; lra).
+  rewrite E, Hinv, inject_Z_plus. ring.
+Qed.
+
+(* TNR: symmetric on the negatives *)
+Theorem roundtrip_tnr_rate (succ pred : Q -> Q) s r T :
+  (forall x, x < succ x) -> (forall x, pred x < x) ->
+  ssorted (neg s) -> (0 <= easy_neg s)%Z -> threshold_at_tnr succ pred s r Linear = Ret T ->
+  within1 (ctn (cm s (Fin T)) - easy_neg s)
+          (clipQ 0 (inject_Z (len (neg s))) (r * inject_Z (len (neg s) + easy_neg s) - inject_Z (easy_neg s))).
+Proof.
+  intros Hsucc Hpred Hss He HT. pose proof (roundtrip_tnr succ pred Hsucc Hpred s r T Hss HT) as R.
+  assert (Hn : (1 <= len (neg s))%Z).
+  { unfold threshold_at_tnr in HT. destruct (len (neg s) =? 0)%Z eqn:E; [discriminate|]. apply Z.eqb_neq in E.
+    pose proof (len_nonneg (neg s)). lia. }
+  destruct (hard_neg_ratio_range s Hn He) as [Hh0 Hh1].
+  assert (HN : 0 < inject_Z (len (neg s))) by (change 0 with (inject_Z 0); rewrite <- Zlt_Qlt; lia).
+  eapply within1_compat; [|exact R]. unfold hard_target_tnr.
+  rewrite (hard_target_sub_spec r (easy_neg_ratio s) (hard_neg_ratio s) Hh0 Hh1) by (unfold easy_neg_ratio; reflexivity).
+  rewrite clip01_scale by exact HN. apply clipQ_compat; [lra|].
+  pose proof (neg_ratio_inv' s Hn He) as Hinv. unfold easy_neg_ratio.
+  assert (E : (r - (1 - hard_neg_ratio s)) / hard_neg_ratio s * inject_Z (len (neg s))
+              == (r - 1) * (inject_Z (len (neg s)) / hard_neg_ratio s) + inject_Z (len (neg s))) by (field; lra).
+  rewrite E, Hinv, inject_Z_plus. ring.
+Qed.
+
+(* FPR: like FNR on the negatives *)
+Theorem roundtrip_fpr_rate (succ pred : Q -> Q) s r T :
+  (forall x, x < succ x) -> (forall x, pred x < x) ->
+  ssorted (neg s) -> (0 <= easy_neg s)%Z -> threshold_at_fpr succ pred s r Linear = Ret T ->
+  within1 (cfp (cm s (Fin T))) (clipQ 0 (inject_Z (len (neg s))) (r * inject_Z (len (neg s) + easy_neg s))).
+Proof.
+  intros Hsucc Hpred Hss He HT. pose proof (roundtrip_fpr succ pred Hsucc Hpred s r T Hss HT) as R.
+  assert (Hn : (1 <= len (neg s))%Z).
+  { unfold threshold_at_fpr in HT. destruct (len (neg s) =? 0)%Z eqn:E; [discriminate|]. apply Z.eqb_neq in E.
+    pose proof (len_nonneg (neg s)). lia. }
+  destruct (hard_neg_ratio_range s Hn He) as [Hh0 Hh1].
+  assert (HN : 0 < inject_Z (len (neg s))) by (change 0 with (inject_Z 0); rewrite <- Zlt_Qlt; lia).
+  eapply within1_compat; [|exact R]. unfold hard_target_fpr, Qminimum.
+  rewrite clip01_min1, clip01_scale by exact HN. apply clipQ_compat; [lra|].
+  rewrite <- (neg_ratio_inv' s Hn He). field. lra.
+Qed.
